@@ -82,6 +82,16 @@ def c01_legal(case, obs, flavor):
         pr = tree.legal_problems(o["C"])
         if pr:
             out.append({"kind": "illegal-configuration", "step": step, "at": None, "where": "quiescent", "detail": "; ".join(pr[:4]), "config": o["C"]})
+        # what a subscriber callback saw, and the snapshot it took there
+        for k, (ids, snap) in enumerate(o.get("SUB") or []):
+            pr = tree.legal_problems(ids)
+            if pr:
+                out.append({"kind": "illegal-configuration", "step": step, "at": None, "where": f"subscriber call {k}", "detail": "; ".join(pr[:4]), "config": ids})
+                break
+            if snap != ids:
+                out.append({"kind": "snapshot-differs-from-configuration", "step": step, "at": None, "where": f"subscriber call {k}",
+                            "detail": f"get_persisted_snapshot() inside the subscriber records {snap}, the configuration there is {ids}", "config": snap})
+                break
     return out
 
 
